@@ -62,13 +62,14 @@ def draw_cfg(st):
         "call_budget": 100000,
         "w_plain_gen": st.choose(2, "plain_gen"),
         "w_reenter": st.choose(2, "reenter"),
+        "w_handler": st.choose(2, "handler"),
     }
     cfg["w_ops"] = [6, 6, 2, 2, 2, 0, 0]
     if world == "threads":
         cfg["n_actors"] = 2
         cfg["p_switch"] = [0.05, 0.2][st.choose(2, "p_switch")]
         cfg["gran"] = "line"
-        cfg["traced"] = ["_output.py", "_action.py"]
+        cfg["traced"] = ["_output.py", "_action.py", "_errors.py", "_traceback.py"]
         cfg["spawn_kinds"] = ["thread", "remote", "preserve"]
         cfg["w_ops"] = [6, 6, 2, 2, 2, 1, 1]
         cfg["max_ops"] = min(cfg["max_ops"], 20)
@@ -95,6 +96,12 @@ def draw_cfg(st):
             mode = ["raise", "raise", "fields", "collide", "cross", "cross"][st.choose(6, "xmode")]
             if cname not in [c for c, _m in ex]:
                 ex.append([cname, mode])
+    if world == "threads" and on("extr") and st.choose(2, "hot-class"):
+        # all threads fail with the same few classes, covered by one slow extractor that fails
+        hot = ["AppError", "ValueError", "KeyError"][st.choose(3, "hot")]
+        cfg["exc"] = {"AppError": ["AppError", "AppSubError"], "ValueError": ["ValueError"],
+                      "KeyError": ["KeyError"]}[hot]
+        ex = [[hot, "raise"]]
     cfg["extractors"] = ex
     cfg["faulty"] = []
     if on("dest"):
